@@ -10,6 +10,7 @@ import (
 
 	datatransfer "github.com/filecoin-project/go-data-transfer/v2"
 	"github.com/filecoin-project/go-data-transfer/v2/channels"
+	"github.com/filecoin-project/go-data-transfer/v2/message"
 
 	"verif/harness/internal/cborx"
 	"verif/harness/internal/doubles"
@@ -147,7 +148,7 @@ func TestC03Init(t *testing.T) {
 		withRBF := variant&1 == 1
 		ftFirst := variant&2 == 2
 		dup := variant == 7 || variant == 6 && c.Rng.Intn(2) == 0 // duplicated signals: P2 not asserted
-		never := variant == 4                                   // never accepted, local finish in AwaitingAcceptance
+		never := variant == 4                                     // never accepted, local finish in AwaitingAcceptance
 		only := -1
 		if variant == 5 {
 			only = c.Rng.Intn(3) // only one of the signals (0=FT,1=RC,2=RBF): must not complete
@@ -487,7 +488,24 @@ func TestC03Mgr(t *testing.T) {
 		steps := 1 + r.Intn(6)
 		for i := 0; i < steps && c.Violations() == 0; i++ {
 			what := ""
-			switch r.Intn(5) {
+			switch r.Intn(6) {
+			case 5:
+				// the transport reports completion once more (the initiator restarted the channel during
+				// the settlement wait and the new request ran through, or a duplicate callback)
+				what = "transport reports completion again"
+				if r.Intn(2) == 0 {
+					rr, _ := message.NewRequest(chid.ID, true, pull, &v, dummyCid, gen.AllSelector)
+					w, _ := doubles.Reencode(rr)
+					if pull {
+						ev.OnRequestReceived(chid, w.(datatransfer.Request))
+					} else {
+						f.net.Deliver(other, w)
+					}
+					settle()
+					what = "restart request, then the transport reports completion again"
+				}
+				ev.OnChannelCompleted(chid, nil)
+				c.Count("completion_reported_again_while_finalizing", 1)
 			case 0, 1, 2:
 				lim := []uint64{0, moved, moved + 1, moved + 1 + uint64(r.Intn(100000)), 1 << 50, limit0}[r.Intn(6)]
 				res := datatransfer.ValidationResult{Accepted: true, RequiresFinalization: true, DataLimit: lim, ForcePause: r.Intn(3) == 0}
